@@ -411,8 +411,6 @@ def check_c05(rec):
         snap, pre = st.get("post"), st.get("pre")
         if snap is None or pre is None or st["pre_error"] or i in rec["strat_errors"]:
             continue
-        if i == len(rec["steps"]) - 1 and rec["aborted"]:
-            continue
         occupied = {vv["cs"]: k for k, vv in pre["veh"].items() if vv["cs"] is not None}
         for cs_id, cs in snap["cs"].items():
             load = snap["gc"][cs["parent"]]["loads"].get(cs_id, F(0))
